@@ -1,7 +1,7 @@
 (** C05 — soft validation enforces exactly the declared constraints, identically in every protocol.
     Property theorems only. *)
 From SpyneV Require Import Base.Digits Base.Ext C08.IntModel C08.DtModel C05.Valid C05.Proofs Gen.NumTypes.
-From SpyneV Require Import C05.Facets Gen.FacetTypes C05.FacetModel C05.FacetProofs.
+From SpyneV Require Import C05.Facets Gen.FacetTypes C05.FacetModel C05.FacetProofs C05.ArrayModel C05.ArrayProofs.
 
 (** validate_native of every fixed-width integer class — generated from the source — equals the
     specification for ALL customised attribute sets and ALL integers *)
@@ -213,3 +213,28 @@ Proof.
     (split; [intros b Hb; try discriminate; inversion Hb; reflexivity|
      split; [reflexivity|split; [intros b Hb; try discriminate; inversion Hb; reflexivity|split; [reflexivity|constructor]]]]).
 Qed.
+
+(** ---------------------------------------------------------------- arrays: the array element vs its items *)
+
+(** XML / SOAP and the hierarchical dict documents: the array element occurs within its own bounds and
+    holds a number of items within the item type's bounds — for every declaration and every request *)
+Theorem C05_array_occurrence_is_spec : forall d r,
+  xml_array d r = conforms_array d r /\ hier_array d r = conforms_array d r.
+Proof. exact array_occurrence_is_spec. Qed.
+
+(** the flat notation (HttpRpc) shows only items: no pair means the array is missing *)
+Theorem C05_flat_array_is_spec : forall d c, ad_wmax d = Fin 1 -> (ad_wmin d <= 1)%Z -> (0 <= c)%Z ->
+  flat_array d c = conforms_array d (flat_request c).
+Proof. exact flat_array_spec. Qed.
+
+Theorem C05_array_verdicts_agree : forall d r,
+  xml_array d r = hier_array d r
+  /\ (forall c, ad_wmax d = Fin 1 -> (ad_wmin d <= 1)%Z -> (0 <= c)%Z -> flat_request c = r -> flat_array d c = xml_array d r).
+Proof. exact array_verdicts_agree. Qed.
+
+Example C05_ex_array :
+  let d := {| ad_wmin := 1; ad_wmax := Fin 1; ad_mmin := 2; ad_mmax := Fin 3 |} in
+  xml_array d None = false /\ hier_array d (Some 1%Z) = false /\ xml_array d (Some 2%Z) = true
+  /\ flat_array d 3 = true /\ flat_array d 4 = false /\ flat_array d 0 = false
+  /\ flat_array {| ad_wmin := 0; ad_wmax := Fin 1; ad_mmin := 2; ad_mmax := PosInf |} 0 = true.
+Proof. vm_compute. repeat split. Qed.
